@@ -4,6 +4,7 @@ Decided: R15.1 template table extents cover every index set-up can form (K4/K8d,
 validation dominates use; R15.3 every failing init clears the info structure; R15.4 the control interface is frozen
 once set-up is final; R15.5 fixed-extent indexing in set-up code (K4).  Not decided: memory safety of per-block DSP."""
 import absint
+import cfg
 import k2
 import k8
 from absint import V
@@ -204,6 +205,64 @@ def r15_5(chk, P):
     return n
 
 
+# caller-supplied values that vorbis_encode_ctl copies into the staged set-up: (field) -> (lo, hi, who relies on it)
+R15_6_REQ = {
+    'bitrate_av_damp': (0.0, float('inf'),
+                        'vorbis_bitrate_addblock forms slewlimit=15./slew_damp and clamps the slew to [-slewlimit,slewlimit]; with a '
+                        'negative damping the two clamps force a constant negative slew, avgfloat runs below zero and '
+                        'packetblob[choice] is read before the array'),
+    'bitrate_reservoir_bias': (0.0, 1.0, 'documented range 0.0..1.0 (vorbisenc.h); desired_fill=reservoir_bits*reservoir_bias must lie '
+                               'inside the reservoir'),
+    'bitrate_reservoir': (0, float('inf'), 'a reservoir size; vorbis_bitrate_init derives minmax_reservoir and the fill targets from it'),
+    'lowpass_kHz': (2.0, 99.0, 'documented range 2..99 (vorbisenc.h); vorbis_encode_residue_setup derives the residue end from it'),
+    'impulse_noisetune': (-15.0, 0.0, 'documented range -15.0..0.0 (vorbisenc.h)'),
+}
+
+
+def r15_6(chk, P):
+    chk.rule('R15.6', 'control requests store only validated values: every value vorbis_encode_ctl copies from the caller\'s argument '
+             'into a range-constrained field of the staged set-up (damping >= 0, reservoir bias in [0,1], reservoir size >= 0, '
+             'lowpass in [2,99], impulse noise tune in [-15,0]) is inside that range at the store, or is clamped into it before '
+             'every return that follows the store (K4 integer and floating intervals refined by the request\'s own checks, '
+             'whatever the other members of the argument are)')
+    import absint
+    F = P.need('vorbis_encode_ctl')
+    at_store = {}
+
+    def obs(A, env, e, v):
+        nd = A.ex[e]
+        if nd['k'] != 'assign' or nd['op'] != '=':
+            return
+        l = A.ex[A.F.strip_casts(nd['c'][0])]
+        if l['k'] == 'member' and l.get('record') == 'highlevel_encode_setup' and l.get('field') in R15_6_REQ:
+            at_store[e] = absint.join(at_store.get(e), A.peek(env, nd['c'][1]))
+    A = absint.Analyzer(P, F)
+    A.observers.append(obs)
+    A.run()
+    chk.require(len(at_store) >= 5, f'vorbis_encode_ctl: only {len(at_store)} stores to range-constrained set-up fields seen')
+    per = {}
+    for e in sorted(at_store, key=lambda x: F.ex[x]['loc']):
+        fld = F.ex[F.strip_casts(F.ex[e]['c'][0])]['field']
+        lo, hi, why = R15_6_REQ[fld]
+        v = at_store[e]
+        ok = v.lo >= lo and v.hi <= hi
+        how = f'stored value {v} within [{lo},{hi}]'
+        if not ok:
+            # in-place clamp idiom: every return that follows the store sees the field inside the range
+            exits = [(r, env) for (r, env, rv) in A.ret_states if cfg.search(F, F.pos[e], lambda n, r=r: n == r, lambda n: False) is not None]
+            vals = []
+            for (r, env) in exits:
+                key = A.path(F.strip_casts(F.ex[e]['c'][0]), env)
+                x = env.get(key) if key else None
+                vals.append(x)
+            ok = bool(exits) and all(x is not None and x.lo >= lo and x.hi <= hi for x in vals)
+            how = (f'stored {v}, clamped to [{lo},{hi}] before each of the {len(exits)} returns that follow' if ok else
+                   f'stored value {v} can leave [{lo},{hi}] and is not clamped before the return: {why}')
+        i = per.get(fld, 0)
+        per[fld] = i + 1
+        chk.ob('R15.6', F.name, f'store:{fld}#{i}', ok, F.where(e), how)
+
+
 def run(chk, P):
     r15_2(chk, P)
     chk.floor('R15.2', 8)
@@ -213,6 +272,8 @@ def run(chk, P):
     chk.floor('R15.4', 10)
     r15_5(chk, P)
     chk.floor('R15.5', 150)
+    r15_6(chk, P)
+    chk.floor('R15.6', 5)
     import k4rules
     if hasattr(k4rules, 'c15'):
         k4rules.c15(chk, P)
